@@ -55,14 +55,14 @@ func repoRoot() string {
 }
 
 type mapSite struct {
-	ID    string // pkg.func#n
-	Pkg   string
-	File  string
-	Func  string
-	Line  int
-	Expr  string // text of the ranged operand
-	Typ   string
-	Kind  string // "map-range" | "time" | "global-rand" | …
+	ID      string // pkg.func#n
+	Pkg     string
+	File    string
+	Func    string
+	Line    int
+	Expr    string // text of the ranged operand
+	Typ     string
+	Kind    string // "map-range" | "time" | "global-rand" | …
 	KeyOnly bool
 }
 
@@ -71,13 +71,13 @@ type mapSite struct {
 var c08Packages = []string{"pkg/lexer", "pkg/parser", "pkg/evaluator", "pkg/cli/svg", "pkg/cli", "."}
 
 type repoImporter struct {
-	root  string
-	fset  *token.FileSet
-	std   types.Importer
-	cache map[string]*types.Package
-	infos map[string]*types.Info
-	files map[string][]*ast.File
-	reqs  map[string]string
+	root      string
+	fset      *token.FileSet
+	std       types.Importer
+	cache     map[string]*types.Package
+	infos     map[string]*types.Info
+	files     map[string][]*ast.File
+	reqs      map[string]string
 	lastInfo  *types.Info
 	lastFiles []*ast.File
 }
